@@ -73,6 +73,7 @@ func (gp globPattern) Index(k any) (any, error) {
 	if !ok {
 		return nil, ErrModifierMustBeString
 	}
+	gp = gp.unshare()
 	modifier := modifierv
 	switch {
 	case modifier == "nomatch-ok":
@@ -174,6 +175,15 @@ func (gp globPattern) RConcat(v any) (any, error) {
 	return nil, vals.ErrConcatNotImplemented
 }
 
+// Returns a copy of gp that can be modified without affecting gp. A pattern is
+// a value: the one that is indexed may be a constant of the compiled code,
+// which is indexed again the next time the code runs.
+func (gp globPattern) unshare() globPattern {
+	gp.Segments = append([]glob.Segment(nil), gp.Segments...)
+	gp.Buts = gp.Buts[:len(gp.Buts):len(gp.Buts)]
+	return gp
+}
+
 func (gp *globPattern) lastWildSeg() (glob.Wild, error) {
 	if len(gp.Segments) == 0 {
 		return glob.Wild{}, ErrBadglobPattern
@@ -191,7 +201,7 @@ func (gp *globPattern) addMatcher(matcher func(rune) bool) error {
 	}
 	gp.Segments[len(gp.Segments)-1] = glob.Wild{
 		Type: lastSeg.Type, MatchHidden: lastSeg.MatchHidden,
-		Matchers: append(lastSeg.Matchers, matcher),
+		Matchers: append(lastSeg.Matchers[:len(lastSeg.Matchers):len(lastSeg.Matchers)], matcher),
 	}
 	return nil
 }
